@@ -50,7 +50,16 @@ func TestC05Rapid(t *testing.T) {
 		finalSeen := map[string]c05Final{} // "bridge/index" -> what became final
 		nearBoundary, reproposeEarly := false, false
 		shape := ""
+		bulkAt := -1
+		if rapid.IntRange(0, 14).Draw(rt, "bulk") == 0 {
+			bulkAt = rapid.IntRange(3, 35).Draw(rt, "bulkAt")
+		}
 		repeatSteps(rt, 50, func(i int) {
+			if i == bulkAt && len(w.ids) > 0 {
+				// the proposer catches up in a burst: dozens of pending outputs above whatever is final already
+				w.bulkPropose(rt, w.bridges[w.ids[0]], rapid.IntRange(30, 120).Draw(rt, "bulkN"))
+				c.Class("burst-of-30-or-more-pending-outputs")
+			}
 			var preMust, preMay bool
 			st := w.step(rt)
 			now := w.e.Ctx.BlockTime()
